@@ -4,8 +4,8 @@ import D2P.Check.Merge
 # `merge_elems` on a whole tree: the result is a fixed point
 
 Hypotheses on the input tree (`G`): element identities are distinct, every namespace is written with
-one prefix, and the property children (`<w:rPr>`, `<w:pPr>` … : the child whose tag is the parent's
-tag followed by `Pr`) carry no content. The driver evaluates `G` (as `goodTree`) on every generated
+one prefix, and nothing mergeable lies at or below a property child (`<w:rPr>`, `<w:pPr>` … : the child whose tag
+is the parent's tag followed by `Pr`). The driver evaluates `G` (as `goodTree`) on every generated
 part. Under `G`:
 
 * `mergeFuel_fp`: whatever fuel sufficed, the merged tree `y` satisfies `fpT` — at every node the
@@ -50,9 +50,9 @@ theorem desc_kids_sublist : ∀ (rest : List Xml), (descL (rest.flatMap Xml.kids
       rw [this, descT_of_nonelem r he]
       simpa [descL] using ih
 
-/-- the property child of a node carries no content -/
+/-- nothing mergeable at or below the property child of a node -/
 def PrCleanNode (e : Xml) : Prop :=
-  ∀ c ∈ e.kids, ∀ t, e.tag? = some t → c.tag? = some ⟨t.ns, t.name ++ lit "Pr"⟩ → hasContent c = false
+  ∀ c ∈ e.kids, ∀ t, e.tag? = some t → c.tag? = some ⟨t.ns, t.name ++ lit "Pr"⟩ → noMergeT c = true
 
 /-- the hypotheses on (a list of) input trees -/
 def G (l : List Xml) : Prop :=
@@ -308,16 +308,48 @@ structure Same (cfg : PartCfg) (x y : Xml) : Prop where
   key : elemKey cfg y = elemKey cfg x
   tag : y.tag? = x.tag?
   ptag : y.ptag = x.ptag
-  fix : hasContent x = false → y = x
+  fix : noMergeT x = true → y = x
 
 theorem same_refl (cfg : PartCfg) (x : Xml) : Same cfg x x := ⟨rfl, rfl, rfl, rfl, fun _ => rfl⟩
 
-theorem key_tag_eq (cfg : PartCfg) (x y : Xml) (k : ElemKey) (hx : elemKey cfg x = .ok k) (hy : elemKey cfg y = .ok k)
-    (ex : x.isElem = true) (ey : y.isElem = true) : x.tag? = y.tag? := by
-  rw [elemKey_with] at hx hy
-  have h1 := elemKeyWith_tag cfg _ _ k hx
-  have h2 := elemKeyWith_tag cfg _ _ k hy
-  cases x <;> cases y <;> simp_all [Xml.isElem, Xml.tag?]
+theorem mergeable_is_content : ∀ t ∈ mergeableTagsL, contentTagsL.contains t = true := by decide +kernel
+
+theorem isMergeable_content (x : Xml) (h : isMergeable x = true) : isContentTag x = true := by
+  unfold isMergeable at h; unfold isContentTag
+  exact mergeable_is_content _ (List.contains_iff_mem.1 h)
+
+mutual
+theorem noMerge_of_contentless : ∀ (x : Xml), hasContent x = false → noMergeT x = true
+  | .elem i p t m a tx tl ks, h => by
+    simp only [hasContent, Bool.or_eq_false_iff] at h
+    have : isMergeable (Xml.elem i p t m a tx tl ks) = false := by
+      cases hm : isMergeable (Xml.elem i p t m a tx tl ks) with
+      | false => rfl
+      | true => rw [isMergeable_content _ hm] at h; cases h.1
+    simp only [noMergeT, this, Bool.not_false, Bool.true_and]
+    exact noMergeL_of_contentless ks h.2
+  | .comment _ _, _ => rfl
+  | .pi _, _ => rfl
+theorem noMergeL_of_contentless : ∀ (ks : List Xml), hasContentL ks = false → noMergeL ks = true
+  | [], _ => rfl
+  | k :: ks, h => by
+    simp only [hasContentL, Bool.or_eq_false_iff] at h
+    simp only [noMergeL, noMerge_of_contentless k h.1, noMergeL_of_contentless ks h.2, Bool.and_self]
+end
+
+theorem noMergeL_mem : ∀ (ks : List Xml), noMergeL ks = true → ∀ k ∈ ks, noMergeT k = true
+  | [], _, k, hk => by simp at hk
+  | x :: ks, h, k, hk => by
+    simp only [noMergeL, Bool.and_eq_true] at h
+    rcases List.mem_cons.1 hk with rfl | hk
+    · exact h.1
+    · exact noMergeL_mem ks h.2 k hk
+
+theorem noMergeT_self (x : Xml) (h : noMergeT x = true) : isMergeable x = false := by
+  cases x with
+  | elem i p t m a tx tl ks => simp only [noMergeT, Bool.and_eq_true, Bool.not_eq_true'] at h; exact h.1
+  | comment _ _ => rfl
+  | pi _ => rfl
 
 theorem find_congr' {P Q : Xml → Bool} : ∀ (l : List Xml), (∀ a ∈ l, P a = Q a) → l.find? P = l.find? Q
   | [], _ => rfl
@@ -443,7 +475,7 @@ theorem mergeFuel_fp (cfg : PartCfg) : ∀ (f : Nat) (x y : Xml), G [x] → merg
           have hh2 := List.mem_filter.1 hh1
           exact ⟨M' h0, List.mem_map.2 ⟨h0, hh2.1, rfl⟩, by rw [(hS h0 hh2.1).2.content]; exact hh2.2⟩
       · -- key
-        have hclean : ∀ x ∈ ks, (x.tag? == some ⟨t.ns, t.name ++ lit "Pr"⟩) = true → hasContent x = false := by
+        have hclean : ∀ x ∈ ks, (x.tag? == some ⟨t.ns, t.name ++ lit "Pr"⟩) = true → noMergeT x = true := by
           intro x hx hPx
           have hme : Xml.elem i p t m a tx tl ks ∈ descL [Xml.elem i p t m a tx tl ks] := by simp [descL, descT]
           exact g.2.2 _ hme x hx t rfl (by simpa using hPx)
@@ -458,7 +490,7 @@ theorem mergeFuel_fp (cfg : PartCfg) : ∀ (f : Nat) (x y : Xml), G [x] → merg
             apply find_congr'
             intro a0 ha0
             simp only [Function.comp, (hS a0 ha0).2.tag]
-          have e3 := f4 _ hP hclean
+          have e3 := f4 _ hP (fun x hx hPx => noMergeT_self x (hclean x hx hPx))
           rw [e1, e3]
           cases hfd : ks.find? (fun k : Xml => k.tag? == some ⟨t.ns, t.name ++ lit "Pr"⟩) with
           | none => rfl
@@ -472,27 +504,16 @@ theorem mergeFuel_fp (cfg : PartCfg) : ∀ (f : Nat) (x y : Xml), G [x] → merg
         congr 1
         unfold htmlFormatting runFormatting parFormatting getPStyle
         rw [hptag, hg]
-      · -- nothing to do below a content-free node
+      · -- nothing to do at or below a node that holds nothing mergeable
         intro hc
-        simp only [hasContent, Bool.or_eq_false_iff] at hc
-        have hcl : ∀ k ∈ ks, hasContent k = false := by
-          intro k hk
-          cases hck : hasContent k with
-          | false => rfl
-          | true =>
-            have := (hasContentL_iff ks).2 ⟨k, hk, hck⟩
-            rw [hc.2] at this; cases this
-        have hcs : ks.filter hasContent = [] := List.filter_eq_nil_iff.2 (fun k hk => by simp [hcl k hk])
-        have hgs : gs = [] := by
-          cases gs with
-          | nil => rfl
-          | cons g0 gs' =>
-            have hne := runs_ne_nil _ _ hr g0 (by simp)
-            rw [hcs] at hf
-            simp only [List.flatten_cons, List.append_eq_nil_iff] at hf
-            exact absurd hf.1 hne
-        subst hgs
-        simp only [List.foldl_nil] at hfold
+        simp only [noMergeT, Bool.and_eq_true] at hc
+        have hcl : ∀ k ∈ ks, noMergeT k = true := noMergeL_mem ks hc.2
+        have hnm : ∀ g0 ∈ gs, merges g0 = false := by
+          intro g0 hg0
+          obtain ⟨a0, t0, rfl, _⟩ := runs_homog _ _ hr g0 hg0
+          have := noMergeT_self a0 (hcl a0 (hsub _ hg0 a0 (by simp)).1)
+          simp [merges, this]
+        rw [foldl_applyGroup_noop gs ks hnm] at hfold
         subst hfold
         have : ks1.map M' = ks1 := by
           conv => rhs; rw [← List.map_id ks1]
